@@ -47,3 +47,5 @@ json.dump(meta, open("seeded/%s/meta.json" % name, "w"), indent=1)
 print("demo clean=%s patched=%s tests=%s check_exit=%s detected=%s" % (cd, pd, trc, rc, int(rc) == 1))
 PY
 rm -rf $W
+# the generated files now describe the patched copy: put the committed ones (generated from /repo) back
+git -C "${VERIF_HOME:-/verif}" checkout -- lean/Zc/Gen 2>/dev/null
